@@ -98,7 +98,7 @@ def _any_params(fixed):
 h_any_markers.params_for = _any_params
 
 BASES = [
-    '(a / x :r (b / y))',
+    '(a / x :p k :r (b / y :p k))',
     '(a / x :r (b / y :q (c / z)))',
     '(a / x :r (b / y) :q (c / z))',
     '(a / x :r (b / y :q a))',
@@ -265,6 +265,11 @@ def obligations(tier: str) -> List[dict]:
     if tier == 'quick':
         anym(2, 1, False, 1, 300, ['several-markers'])
         anym(2, 1, True, 0, 300)
+        # attributes (constant targets) with arbitrary markers
+        anym(1, 1, True, 2, 300)
+        anym(1, 2, True, 1, 300)
+        for s0 in (0, 1):
+            anym(2, 2, False, 0, 300, e0_s=s0, e0_t=2)
         for b in range(len(BASES)):
             edits(b, 1, 200)
         for b in (1, 3, 5):
